@@ -168,8 +168,8 @@ check("C19", "exploration",
 check("C18", "exploration",
       [native("quick")],
       [native("thorough"), native("thorough", profile="release", name="native-release"), miri(shards=4)],
-      minima={"kinds": 13, "wellformed_accepted": 30000, "parse_calls": 20000000, "info_parse_some": 5000000, "info_parse_none": 5000000,
-              "truncations": 5000000, "prng_after_header": 500000, "numeric_fields_swept": 300000, "offset_packetno_sweeps": 500000,
-              "merge_schedules": 3000000, "merge_duplicates_injected": 5000000, "complete_infos_compared": 2000000,
-              "merge_cases_exhaustive": 20000, "merge_cases_prng": 10000, "merge_cases_64_clients_legacy": 5000,
+      minima={"kinds": 13, "wellformed_accepted": 10000, "parse_calls": 6000000, "info_parse_some": 1500000, "info_parse_none": 1500000,
+              "truncations": 1500000, "prng_after_header": 150000, "numeric_fields_swept": 100000, "offset_packetno_sweeps": 150000,
+              "merge_schedules": 1000000, "merge_duplicates_injected": 1500000, "complete_infos_compared": 600000,
+              "merge_cases_exhaustive": 6000, "merge_cases_prng": 3000, "merge_cases_64_clients_legacy": 1500,
               "merge_parts_max_v6ex": 64, "merge_parts_max_v664": 64})
